@@ -12,7 +12,9 @@ O_PZ == O_Num(0, FALSE)
 O_NZ == O_Num(0, TRUE)
 O_PInf == [v |-> 0, nz |-> FALSE, k |-> "pinf"]
 O_NInf == [v |-> 0, nz |-> FALSE, k |-> "ninf"]
-O_Rank(x) == IF x.k = "ninf" THEN 0 - 1000 ELSE IF x.k = "pinf" THEN 1000
+\* the largest finite number (the code's marker "no cost known yet", InsertionCost::max_value): below +inf, above everything else
+O_PMax == [v |-> 0, nz |-> FALSE, k |-> "pmax"]
+O_Rank(x) == IF x.k = "ninf" THEN 0 - 1000 ELSE IF x.k = "pinf" THEN 1000 ELSE IF x.k = "pmax" THEN 999
              ELSE IF x.v = 0 THEN (IF x.nz THEN 0 - 1 ELSE 0) ELSE 2 * x.v
 O_Cmp(a, b) == IF O_Rank(a) < O_Rank(b) THEN 0 - 1 ELSE IF O_Rank(a) > O_Rank(b) THEN 1 ELSE 0
 O_IsZero(x) == x.k = "fin" /\ x.v = 0
